@@ -8,7 +8,9 @@ OVDIR=.work/overlay; BIN=bin/vhs
 if [ -n "${VERIF_OVERLAY:-}" ]; then OVDIR=.work/overlay-mut-$$; BIN=bin/vhs-mut-$$; fi
 RACE=""; TAGS="verif"
 if [ "$ID" = C32 ]; then
-  RACE="-race -gcflags=verif/shim/...=-race=false"; TAGS="verif vrace"; BIN=${BIN}-race; export CGO_ENABLED=0
+  RACE="-race -gcflags=verif/shim/...=-race=false"; TAGS="verif vrace"; BIN=${BIN}-race; export CGO_ENABLED=1
+  mkdir -p .work/run; rm -f .work/run/race-log.*
+  export GORACE="log_path=/verif/.work/run/race-log halt_on_error=0 exitcode=0 atexit_sleep_ms=0 history_size=5"
 fi
 [ -x bin/mkoverlay ] || go1.26 build -o bin/mkoverlay ./cmd/mkoverlay || { echo "HARNESS ERROR: cannot build mkoverlay"; exit 2; }
 if ! bin/mkoverlay /repo $OVDIR shim hooks > .work/mkoverlay-$ID.log 2>&1; then
